@@ -4,15 +4,18 @@ from ..flow import resolver, peel, guards_of, aggregates, show
 from ..symexec import SymExec, variant_name
 from ..facts import AnchorMissing, op_const_str
 
-LEVEL = ("decides: the DRAT literal sign table of DimacsProof::learned_clause against the 0-1 "
-         "encoding (6 rows) and that every clause line is terminated by 0 (G1); the sink maps every "
-         "literal of a clause (no selecting adaptor), negates exactly the negative codes and hands all "
-         "of them to add_clause (G2); result → status line table of cnf_problem (G3); the UNSAT "
-         "conclusion of a DIMACS proof writes the empty clause and learned clauses are logged before "
-         "they are used (G4); header and body tokenise on the same separator class (G5); the clause "
-         "buffer of the byte parser is only filled by finish_literal and only cleared by finish_clause "
-         "after the clause was handed to the sink, and a line break inside a clause keeps it (G6/G7). "
-         "Does not decide RUP validity or verdict correctness")
+LEVEL = ('decides: the DRAT literal sign table of DimacsProof::learned_clause against the 0-1 encoding'
+         ' (6 rows) and that every clause line is terminated by 0 (G1); the sink maps every literal of'
+         ' a clause (no selecting adaptor), negates exactly the negative codes and hands all of them '
+         'to add_clause (G2); result → status line table of cnf_problem (G3); the UNSAT conclusion of '
+         'a DIMACS proof writes the empty clause and learned clauses are logged before they are used '
+         '(G4); header and body tokenise on the same separator class (G5); the clause buffer of the '
+         'byte parser is only filled by finish_literal and only cleared by finish_clause after the '
+         'clause was handed to the sink, and a line break inside a clause keeps it (G6/G7). a status '
+         'line is printed only inside an arm of the solve result and the UNSAT line only after the '
+         'proof was concluded; the sink hands every hard clause to the solver on every path (G8); '
+         'add_clause rejects every inconsistent state at once (G9 = C10-T11). Does not decide RUP '
+         'validity or verdict correctness')
 TECHNIQUE = "static analysis: symbolic table recovery, who-may-mutate and must-pass rules over rustc MIR"
 
 SELECTING = {"filter", "filter_map", "skip", "take", "step_by", "skip_while", "take_while", "dedup",
